@@ -9,7 +9,7 @@ SPEC = vlib.os.path.join(vlib.VERIF, "specs", "Relay")
 URGENT = {"RecvLoopEnd", "DlTimeout", "Cleanup", "UpClosed", "PackRes", "InitFail"}
 
 BASE = dict(Sess='{"s1"}', Targets='{"a","ip","rej"}', Domains='{"a"}', Rejected='{"rej"}', ChanCap=2, MaxSend=2, MaxReply=1, MaxTimer=0,
-            SharedPacker="FALSE", RearmGuard="TRUE", EMIT="", PROPS="")
+            SharedPacker="FALSE", RearmGuard="TRUE", Keyed='"addr"', EMIT="", PROPS="")
 
 
 def model(consts, props=True, edges=False, timeout=1800, workers=16):
